@@ -552,6 +552,10 @@ func runStatsFiles(ctx *core.Ctx, c05 bool) {
 		return
 	}
 	nfiles := ctx.Scale(2800, 64000)
+	if !c05 {
+		// C06 searches every file per row group and once more through MultiRowGroup: fewer files in thorough
+		nfiles = ctx.Scale(2800, 24000)
+	}
 	workers := 8
 	var wg sync.WaitGroup
 	for w := 0; w < workers; w++ {
@@ -654,6 +658,9 @@ func c05CheckData(ctx *core.Ctx, b *c05Batch, f *c05File, data []byte, c05 bool,
 	f.multi = len(rgs) > 1
 	rawIdx := pf.ColumnIndexes()
 	rowsSeen := 0
+	allPages := make([][]c05ReadPage, len(c05Cols)) // C06: the pages of every row group one after the other
+	allShort := make([]bool, len(c05Cols))
+	allRead := make([]int, len(c05Cols))
 	for g, rg := range rgs {
 		chunks := rg.ColumnChunks()
 		md := pf.Metadata().RowGroups[g].Columns
@@ -694,8 +701,39 @@ func c05CheckData(ctx *core.Ctx, b *c05Batch, f *c05File, data []byte, c05 bool,
 			if c05 {
 				c05CheckChunk(ctx, b, &kk, col, f, data, chunks[ci], raw, &md[ci].MetaData, pages, detail)
 			} else {
-				c06CheckChunk(ctx, &kk, col, f, chunks[ci], raw != nil && len(raw.MinValues) != len(raw.NullPages), pages, detail)
+				short := raw != nil && len(raw.MinValues) != len(raw.NullPages)
+				c06CheckChunk(ctx, &kk, col, f, chunks[ci], short, pages, detail, "")
+				allPages[ci] = append(allPages[ci], pages...)
+				allShort[ci] = allShort[ci] || short
+				allRead[ci]++
 			}
+		}
+	}
+	if !c05 && len(rgs) > 1 {
+		// the same column through MultiRowGroup: one chunk whose column index lists the pages of all row groups
+		// and recomputes the order flags across the row group borders
+		var mchunks []parquet.ColumnChunk
+		if p := c05Recover(func() { mchunks = parquet.MultiRowGroup(rgs...).ColumnChunks() }); p != nil || len(mchunks) != len(c05Cols) {
+			ctx.Fail("L1", "multi-row-group-failed", fmt.Sprint(p), base)
+			return
+		}
+		for ci, col := range c05Cols {
+			if (f.only != "" && f.only != col.name) || allRead[ci] != len(rgs) {
+				continue
+			}
+			kk := *c05KindByName(col.kind)
+			kk.typ = mchunks[ci].Type()
+			detail := func(extra map[string]any) map[string]any {
+				m := map[string]any{"op": "file", "column": col.name, "kind": col.kind, "pages": f.colText(ci), "multi_row_group": true, "row_groups": len(rgs)}
+				for k, v := range base {
+					m[k] = v
+				}
+				for k, v := range extra {
+					m[k] = v
+				}
+				return m
+			}
+			c06CheckChunk(ctx, &kk, col, f, mchunks[ci], allShort[ci], allPages[ci], detail, " multi-row-group")
 		}
 	}
 	total := 0
@@ -1166,8 +1204,8 @@ func c05TruncAllFF(vals []c05Val, lim int) bool {
 // ---------------------------------------------------------------- C06 on files
 
 func c06CheckChunk(ctx *core.Ctx, k *c05Kind, col c05Col, f *c05File, cc parquet.ColumnChunk, short bool, pages []c05ReadPage,
-	detail func(map[string]any) map[string]any) {
-	ctx.Hist("chunk-kind", col.kind)
+	detail func(map[string]any) map[string]any, tag string) {
+	ctx.Hist("chunk-kind"+tag, col.kind)
 	ci, err := cc.ColumnIndex()
 	if err != nil {
 		if !f.skip[col.name] { // SkipPageBounds columns have no column index to search
@@ -1255,9 +1293,9 @@ func c06CheckChunk(ctx *core.Ctx, k *c05Kind, col c05Col, f *c05File, cc parquet
 		} else {
 			ctx.Hist("probe", "absent")
 		}
-		cause := ""
+		cause := tag
 		if prn.nullsFirst {
-			cause = " nulls-first"
+			cause += " nulls-first"
 		}
 		switch {
 		case f.skip[col.name]:
